@@ -1897,4 +1897,286 @@ theorem mvarSearch_facts (tags : List Nat) (tag : Nat) (hn : tags.length ≤ 655
     · rw [if_neg hlt]
       exact ⟨none, rfl, fun i hi' => by cases hi'⟩
 
+/-! ## `compute_delta`, `advance_delta`, `item_delta`, `metric_delta`, `SegmentMaps::apply` -/
+
+/-- the statement of C20's `computeDelta_no_trap` for fixed coordinates -/
+def DeltaKernelTotal (coords : List Int) : Prop :=
+  ∀ cols : List (List (Int × Int × Int) × Int),
+    (∀ col ∈ cols, (∀ a ∈ col.1, I16 a.1 ∧ I16 a.2.1 ∧ I16 a.2.2) ∧ I32 col.2) → cols.length ≤ 65535 →
+    (Checked.computeDelta cols coords).isSome
+
+theorem computeDelta_facts {d : List Nat} {s : Ivs} (hb : Bytes d) (h : ivsRead d = some s) (outer inner : Nat)
+    (hin : inner < 65536) (coords : List Int) (hk : DeltaKernelTotal coords) :
+    s.computeDelta outer inner coords ≠ .trap ∧ s.computeFloatDelta outer inner coords ≠ .trap ∧
+    (∀ e, s.computeDelta outer inner coords = .err e → e = .oob ∨ e = .nullOffset ∨ e = .invalidIndex outer) := by
+  obtain ⟨w1, w2, w3⟩ := deltaWalk_facts hb h outer inner hin coords.isEmpty
+  unfold Ivs.computeDelta Ivs.computeFloatDelta
+  cases hw : s.deltaWalk outer inner coords.isEmpty with
+  | trap => exact absurd hw w1
+  | err e => exact ⟨by simp, by simp, fun e' he' => by injection he' with he'; subst he'; exact w2 e hw⟩
+  | ok ol =>
+    cases ol with
+    | none => exact ⟨by simp, by simp, by simp⟩
+    | some l =>
+      simp only []
+      obtain ⟨hl, hall⟩ := w3 l hw
+      have := hk (l.map (fun x => (x.2, x.1))) (by
+        intro col hcol
+        simp only [List.mem_map] at hcol
+        obtain ⟨x, hx, rfl⟩ := hcol
+        exact ⟨(hall x hx).2, (hall x hx).1⟩) (by simpa using hl)
+      obtain ⟨r, hr⟩ := Option.isSome_iff_exists.mp this
+      rw [hr]
+      exact ⟨by simp [unwrapR], by simp, by simp [unwrapR]⟩
+
+theorem deltaAsFixed_no_trap (ivs : R Ivs) (hivs : ivs ≠ .trap)
+    (hsrc : ∀ s, ivs = .ok s → ∃ d, Bytes d ∧ ivsRead d = some s) (ix : Nat × Nat) (hin : ix.2 < 65536)
+    (coords : List Int) (hk : DeltaKernelTotal coords) : deltaAsFixed ivs ix coords ≠ .trap := by
+  unfold deltaAsFixed
+  cases hi : ivs with
+  | trap => exact absurd hi hivs
+  | err e => simp
+  | ok s =>
+    simp only []
+    obtain ⟨d, hb, hr⟩ := hsrc s hi
+    obtain ⟨c1, _, _⟩ := computeDelta_facts hb hr ix.1 ix.2 hin coords hk
+    cases hc : s.computeDelta ix.1 ix.2 coords with
+    | trap => exact absurd hc c1
+    | err e => simp
+    | ok v =>
+      simp only []
+      obtain ⟨f, hf, _⟩ := fxFromI32_some v
+      rw [hf]
+      simp [unwrapR]
+
+theorem resolveIvs_facts (d : List Nat) (hb : Bytes d) (off : Nat) :
+    resolveIvs d off ≠ .trap ∧ ∀ s, resolveIvs d off = .ok s → ∃ d', Bytes d' ∧ ivsRead d' = some s := by
+  unfold resolveIvs
+  have hres := resolveData_facts d off
+  cases hr : resolveData d off with
+  | trap => exact absurd hr hres.1
+  | err e => exact ⟨by simp, by simp⟩
+  | ok data =>
+    simp only []
+    obtain ⟨hdata, _, _⟩ := hres.2 data hr
+    cases hi : ivsRead data with
+    | none => exact ⟨by simp [okOr], by simp [okOr]⟩
+    | some s =>
+      refine ⟨by simp [okOr], ?_⟩
+      intro s' hs'
+      simp only [okOr] at hs'
+      injection hs' with hs'
+      subst hs'
+      exact ⟨data, by rw [hdata]; exact bytes_drop hb _, hi⟩
+
+theorem resolveDsim_facts (d : List Nat) (hb : Bytes d) (off : Nat) :
+    resolveDsim d off ≠ some .trap ∧ ∀ m, resolveDsim d off = some (.ok m) → ∃ d', Bytes d' ∧ dsimRead d' = .ok m := by
+  unfold resolveDsim
+  split
+  · exact ⟨by simp, by simp⟩
+  · split
+    · refine ⟨?_, ?_⟩
+      · intro hc
+        injection hc with hc
+        exact dsimRead_no_trap _ (bytes_drop hb _) hc
+      · intro m hm
+        injection hm with hm
+        exact ⟨_, bytes_drop hb _, hm⟩
+    · exact ⟨by simp, by simp⟩
+
+theorem advanceItem_no_trap (dsim : Option (R Dsim)) (ivs : R Ivs) (hd : dsim ≠ some .trap) (hivs : ivs ≠ .trap)
+    (hdsrc : ∀ m, dsim = some (.ok m) → ∃ d, Bytes d ∧ dsimRead d = .ok m)
+    (hsrc : ∀ s, ivs = .ok s → ∃ d, Bytes d ∧ ivsRead d = some s) (gid : Nat) (hg : gid < 4294967296)
+    (coords : List Int) (hk : DeltaKernelTotal coords) :
+    advanceDelta dsim ivs gid coords ≠ .trap ∧ itemDelta dsim ivs gid coords ≠ .trap := by
+  have hmap : ∀ m, dsim = some (.ok m) →
+      (match m.get gid with
+        | .err e => R.err e
+        | .trap => .trap
+        | .ok ix => deltaAsFixed ivs ix coords) ≠ .trap := by
+    intro m hm
+    obtain ⟨d, hb, hr⟩ := hdsrc m hm
+    obtain ⟨ef, mc, data, _, _, _, _, _, g1, _, g3, _⟩ := dsimGet_facts hb hr gid hg
+    cases hgm : m.get gid with
+    | trap => exact absurd hgm g1
+    | err e => simp
+    | ok ix =>
+      simp only []
+      obtain ⟨o, i⟩ := ix
+      obtain ⟨_, hi, _⟩ := g3 o i hgm
+      exact deltaAsFixed_no_trap ivs hivs hsrc (o, i) hi coords hk
+  have himp := deltaAsFixed_no_trap ivs hivs hsrc (0, gid % 65536) (by simp; omega) coords hk
+  constructor
+  · unfold advanceDelta
+    cases dsim with
+    | none =>
+      cases ivs with
+      | trap => exact absurd rfl hivs
+      | err e => simp only []; split <;> first | exact himp | simp
+      | ok s => simp only []; split <;> first | exact himp | simp
+    | some rm =>
+      cases rm with
+      | trap => exact absurd rfl hd
+      | err e =>
+        cases ivs with
+        | trap => exact absurd rfl hivs
+        | err e' => simp only []; split <;> first | exact himp | simp
+        | ok s => simp only []; split <;> first | exact himp | simp
+      | ok m =>
+        cases ivs with
+        | trap => exact absurd rfl hivs
+        | err e' => simp only []; split <;> first | exact hmap m rfl | simp
+        | ok s => simp only []; split <;> first | exact hmap m rfl | simp
+  · unfold itemDelta
+    cases dsim with
+    | none =>
+      cases ivs with
+      | trap => exact absurd rfl hivs
+      | err e => simp only []; split <;> simp
+      | ok s => simp only []; split <;> simp
+    | some rm =>
+      cases rm with
+      | trap => exact absurd rfl hd
+      | err e =>
+        cases ivs with
+        | trap => exact absurd rfl hivs
+        | err e' => simp only []; split <;> simp
+        | ok s => simp only []; split <;> simp
+      | ok m =>
+        cases ivs with
+        | trap => exact absurd rfl hivs
+        | err e' => simp only []; split <;> first | exact hmap m rfl | simp
+        | ok s => simp only []; split <;> first | exact hmap m rfl | simp
+
+theorem metricsDelta_no_trap (d : List Nat) (hb : Bytes d) (vvar : Bool) (which gid : Nat)
+    (hw : which ≤ (if vvar then 3 else 2)) (hg : gid < 4294967296) (coords : List Int)
+    (hk : DeltaKernelTotal coords) : metricsDelta d vvar which gid coords ≠ .trap := by
+  unfold metricsDelta
+  by_cases hl : d.length < (if vvar then 24 else 20)
+  · rw [if_pos hl]; simp
+  · rw [if_neg hl]
+    obtain ⟨so, hso⟩ := readAt_isSome d 4 4 (by split at hl <;> omega) (by unfold MAXU; omega)
+    obtain ⟨mo, hmo⟩ := readAt_isSome d (8 + 4 * which) 4 (by split at hl <;> split at hw <;> simp_all <;> omega)
+      (by unfold MAXU; split at hw <;> omega)
+    rw [hso, hmo]
+    simp only []
+    obtain ⟨d1, d2⟩ := resolveDsim_facts d hb mo
+    obtain ⟨i1, i2⟩ := resolveIvs_facts d hb so
+    obtain ⟨a1, a2⟩ := advanceItem_no_trap (resolveDsim d mo) (resolveIvs d so) d1 i1 d2 i2 gid hg coords hk
+    split
+    · exact a1
+    · exact a2
+
+theorem mvarMetricDelta_no_trap (d : List Nat) (hb : Bytes d) (tag : Nat) (coords : List Int)
+    (hk : DeltaKernelTotal coords) : mvarMetricDelta d tag coords ≠ .trap := by
+  unfold mvarMetricDelta
+  cases hc : readAt d 8 2 with
+  | none => simp
+  | some count =>
+    simp only []
+    have hcl : count < 65536 := by have := readAt_lt d hb 8 2 count hc; omega
+    have e1 : checkedMul count 8 = some (count * 8) := by unfold checkedMul; rw [if_pos (by unfold MAXU; omega)]
+    rw [e1]
+    simp only []
+    rw [satAdd_exact 12 _ (by unfold MAXU; omega)]
+    by_cases hle : 12 + count * 8 ≤ d.length
+    · rw [if_pos hle, uadd_some _ _ (by unfold MAXU; omega)]
+      simp only []
+      have hra : HandRead.readArray d 12 (12 + count * 8) 8 = .ok count := by
+        unfold HandRead.readArray getRange
+        rw [if_pos ⟨by omega, hle⟩]
+        simp only []
+        have : 12 + count * 8 - 12 = count * 8 := by omega
+        rw [this]
+        simp
+      rw [hra]
+      simp only []
+      obtain ⟨r, hr, hp⟩ := mvarSearch_facts ((List.range count).map (fun i => HandRead.beAt d (12 + 8 * i) 4)) tag
+        (by simp; omega) (count + 1) 0 count (by simp) (by omega)
+      rw [hr]
+      cases r with
+      | none => simp
+      | some i =>
+        simp only []
+        obtain ⟨so, hso⟩ := readAt_isSome d 10 2 (by omega) (by unfold MAXU; omega)
+        rw [hso]
+        simp only []
+        split
+        · simp
+        · refine deltaAsFixed_no_trap _ ?_ ?_ _ (by simp only []; exact beAt2_lt d hb _) coords hk
+          · split
+            · cases ivsRead (d.drop so) <;> simp [okOr]
+            · simp
+          · intro s hs
+            split at hs
+            · cases hi : ivsRead (d.drop so) with
+              | none => rw [hi] at hs; simp [okOr] at hs
+              | some s' =>
+                rw [hi] at hs
+                simp only [okOr] at hs
+                injection hs with hs
+                subst hs
+                exact ⟨_, bytes_drop hb _, hi⟩
+            · cases hs
+    · rw [if_neg hle]; simp
+
+/-- the statement of C20's `avarApply_no_trap` for a fixed coordinate -/
+def AvarKernelTotal (coord : Int) : Prop :=
+  ∀ maps : List (Int × Int), (∀ m ∈ maps, I16 m.1 ∧ I16 m.2) → (Checked.avarApply maps coord).isSome
+
+theorem segmentMapsApply_no_trap (d : List Nat) (hb : Bytes d) (coord : Int) (hk : AvarKernelTotal coord) :
+    segmentMapsApply d coord ≠ .trap := by
+  unfold segmentMapsApply
+  cases readAt d 0 2 with
+  | none => simp
+  | some count =>
+    simp only []
+    cases (Cur.readArray d ⟨2⟩ count 4).1 with
+    | error e => simp
+    | ok n =>
+      simp only []
+      have := hk ((List.range n).map (fun i =>
+        (toI16 (HandRead.beAt d (2 + 4 * i) 2), toI16 (HandRead.beAt d (2 + 4 * i + 2) 2)))) (by
+        intro m hm
+        simp only [List.mem_map, List.mem_range] at hm
+        obtain ⟨i, _, rfl⟩ := hm
+        exact ⟨toI16_I16 _ (beAt2_lt d hb _), toI16_I16 _ (beAt2_lt d hb _)⟩)
+      obtain ⟨r, hr⟩ := Option.isSome_iff_exists.mp this
+      rw [hr]
+      simp [unwrapR]
+
+theorem dsimRead_err (d : List Nat) (e : VErr) (h : dsimRead d = .err e) : e = .oob ∨ ∃ n, e = .invalidFormat n := by
+  unfold dsimRead at h
+  cases hf : readAt d 0 1 with
+  | none => rw [hf] at h; injection h with h; exact Or.inl h.symm
+  | some fmt =>
+    rw [hf] at h
+    simp only [] at h
+    by_cases hfm : fmt = 0 ∨ fmt = 1
+    · rw [if_pos hfm] at h
+      cases hef : readAt d 1 1 with
+      | none => rw [hef] at h; injection h with h; exact Or.inl h.symm
+      | some ef =>
+        cases hmc : readAt d 2 (if fmt = 0 then 2 else 4) with
+        | none => rw [hef, hmc] at h; injection h with h; exact Or.inl h.symm
+        | some mc =>
+          rw [hef, hmc] at h
+          simp only [] at h
+          cases hms : mapSize ef mc with
+          | none => rw [hms] at h; cases h
+          | some ms =>
+            rw [hms] at h
+            simp only [] at h
+            cases hcm : checkedMul ms 1 with
+            | none => rw [hcm] at h; injection h with h; exact Or.inl h.symm
+            | some len =>
+              rw [hcm] at h
+              simp only [] at h
+              by_cases hle : satAdd (2 + if fmt = 0 then 2 else 4) len ≤ d.length
+              · rw [if_pos hle] at h; cases h
+              · rw [if_neg hle] at h; injection h with h; exact Or.inl h.symm
+    · rw [if_neg hfm] at h
+      injection h with h
+      exact Or.inr ⟨fmt, h.symm⟩
+
 end FontVerif.C01HandVar
